@@ -48,6 +48,8 @@ def procRoot : Fd := 0
 def threadSelf : Fd := 2
 def isTree (fd : Fd) : Prop := 4 ≤ fd ∧ fd % 2 = 0
 def magic (fd : Fd) : Fd := fd + 1
+/-- the directory `thread-self/fd` of libpathrs' procfs -/
+def fdDir : Fd := 3
 
 /-- a proper file name: non-empty, no '/', not `.` or `..` -/
 def ProperComp (n : Bytes) : Prop :=
@@ -139,13 +141,33 @@ def resolveInRoot (w : World) (cfg : Cfg) (path : Bytes) : Except Nat Fd :=
 
 def parseDigits (b : Bytes) : Nat := b.foldl (fun acc c => acc * 10 + (c.toNat - 48)) 0
 
+/-- the access mode asks for writing -/
+def accWrite (flags : Nat) : Bool := flags &&& O_ACCMODE ≠ O_RDONLY
+
+/-- What `open(2)` says about the object the lookup ended at, by kind.  A symlink is the final object
+only of a no-follow lookup: it can be opened with `O_PATH` alone, `O_DIRECTORY` makes it `ENOTDIR`,
+anything else `ELOOP`.  A directory cannot be opened for writing; `O_DIRECTORY` on anything else is
+`ENOTDIR`. -/
+def openKind (k : Kind) (flags : Nat) : Except Nat Unit :=
+  match k with
+  | .lnk => if hasAll flags O_DIRECTORY then .error ENOTDIR else if hasAll flags O_PATH then .ok () else .error ELOOP
+  | .dir => if !hasAll flags O_PATH && accWrite flags then .error EISDIR else .ok ()
+  | .other => if hasAll flags O_DIRECTORY then .error ENOTDIR else .ok ()
+
 /-- how the kernel answers on this world -/
 def answer (w : World) : Call → Resp
   | .dup fd _ => .fd fd
   | .close _ => .unit
   | .gettid => .nums [1]
   | .geteuid => .nums [0]
-  | .openat d n _ _ =>
+  | .openat d n fl _ =>
+      if d = fdDir then
+        -- `thread-self/fd/<n>`: the magic-link itself (no-follow), or the object it leads to
+        if hasAll fl O_NOFOLLOW then (if hasAll fl O_PATH then .fd (magic (parseDigits n)) else .err ELOOP)
+        else match openKind (w.kind (parseDigits n)) fl with
+          | .ok () => .fd (parseDigits n)
+          | .error e => .err e
+      else
       match w.lookup d n with
       | .ok c => .fd c
       | .error e => .err e
@@ -169,13 +191,17 @@ def answer (w : World) : Call → Resp
   | .openat2 d path flags _ resolve _ =>
       if d = procRoot then (if path = b!"thread-self" then .fd threadSelf else .err ENOENT)
       else if d = threadSelf then
-        (if (b!"fd/").isPrefixOf path then .fd (magic (parseDigits (path.drop 3))) else .err ENOENT)
-      else if d = w.root ∧ hasAll resolve (RESOLVE_IN_ROOT ||| RESOLVE_NO_MAGICLINKS) ∧ hasAll flags O_PATH then
-        -- the kernel's own in-root resolution
+        (if (b!"fd/").isPrefixOf path then .fd (magic (parseDigits (path.drop 3)))
+         else if path = b!"fd" then .fd fdDir else .err ENOENT)
+      else if d = w.root ∧ hasAll resolve (RESOLVE_IN_ROOT ||| RESOLVE_NO_MAGICLINKS) then
+        -- the kernel's own in-root resolution, then `open(2)` of the object found
         match resolveInRoot w { nofollow := hasAll flags O_NOFOLLOW,
                                 noSymlinks := hasAll resolve RESOLVE_NO_SYMLINKS,
                                 maxLinks := w.kernelLinks } path with
-        | .ok c => .fd c
+        | .ok c =>
+          match openKind (w.kind c) flags with
+          | .ok () => .fd c
+          | .error e => .err e
         | .error e => .err e
       else .err ENOSYS
   | _ => .err ENOSYS
